@@ -160,6 +160,19 @@ def one_case(ctx, k):
                 perm = rs.permutation(len(n.categories))
                 n.__init__(n.scope[0], categories=[int(c) for c in np.asarray(n.categories)[perm]], probabilities=np.asarray(n.probabilities)[perm].tolist())
                 ctx.count('categorical-leaves-with-permuted-categories')
+    shared_w = None
+    if k % 4 == 2:
+        # two sum nodes constructed from ONE weights array (Sum.__init__ keeps a reference to an ndarray): each node's update is its own,
+        # and the caller's array is not the library's to overwrite
+        sums = [n for n in S.bfs_order(root) if isinstance(n, Sum)]
+        pairs = [(a, b) for i_, a in enumerate(sums) for b in sums[i_ + 1:] if len(a.children) == len(b.children)]
+        if pairs:
+            a, b = pairs[rs.randint(len(pairs))]
+            shared_w = rs.dirichlet(np.ones(len(a.children))).astype(np.float32)
+            a.weights = shared_w
+            b.weights = shared_w
+            ctx.count('nets-with-two-sums-built-from-one-weights-array')
+    shared_w0 = None if shared_w is None else shared_w.copy()
     assign_ids(root)
     table0, order, index, _ = S.export_net(root)
     dom = S.domain_of(order)
@@ -172,9 +185,10 @@ def one_case(ctx, k):
         data[:, 0] = data[0, 0]                                # a constant column
     eta = float(rs.choice([0.05, 0.3, 0.5, 0.9]))
     perc = float(rs.choice([0.1, 0.25, 0.6, 0.95]))
-    random_init = bool(k % 2)
+    random_init = bool(k % 2) and shared_w is None
     seed = int(rs.randint(10000))
-    rep = dict(kind='c14', table=table_with_py(table0, order), data=data.tolist(), eta=eta, batch_perc=perc, random_init=random_init, seed=seed)
+    rep = dict(kind='c14', table=table_with_py(table0, order), data=data.tolist(), eta=eta, batch_perc=perc, random_init=random_init, seed=seed,
+               shared_weight_array=(None if shared_w is None else [int(n.id) for n in S.bfs_order(root) if isinstance(n, Sum) and n.weights is shared_w]))
     key = hashlib.sha256(json.dumps(table0, sort_keys=True).encode()).hexdigest()[:16]
     ctx.case('net', nontrivial_key=key, sample=dict(nodes=len(table0), kinds=S.describe(order), rows=n_rows, eta=eta, batch_perc=perc, random_init=random_init))
     for kk, c in S.describe(order).items():
@@ -276,6 +290,12 @@ def replay(rep):
     if r['kind'] != 'c14':
         return True
     root, order = build_from_table(r['table'])
+    if r.get('shared_weight_array'):
+        shared = [n for n in order if isinstance(n, Sum) and int(n.id) in r['shared_weight_array']]
+        if len(shared) >= 2:
+            w = np.array(shared[0].weights, dtype=np.float32)
+            for n in shared:
+                n.weights = w          # one array object, as in the recorded case
     data = np.array(r['data'], dtype=np.float32)
     rr = RevealRS(r['seed'])
     for it in range(r.get('iterations', 1)):
